@@ -4,6 +4,8 @@ import (
 	"fmt"
 
 	txfile "github.com/elastic/go-txfile"
+
+	"verif/engine/sched"
 )
 
 // Role resolves a role index against the visible page list: r >= 0 is the
@@ -352,6 +354,9 @@ func (e *Env) abortTx(why string) {
 // per-operation oracles. Violations accumulate in e.Viol.
 func (e *Env) Apply(op Op) {
 	e.Ops++
+	if e.Eager {
+		defer sched.LetOthersRun()
+	}
 	switch op.K {
 	case OBegin:
 		var tx *txfile.Tx
